@@ -2,7 +2,7 @@
 (* Family "badto": SetObj v ; LoadRaw (empty object with attribute types removed) ; CopyTo.  Serves C06 (CopyTo part). *)
 EXTENDS Shapes, TLC, Json
 CONSTANTS MCDeep, MCLong
-VARIABLES sh, M, obj, tf, dg, pn, pc, hist, viol, aux
+VARIABLES sh, M, Mi, obj, tf, dg, pn, pc, hist, viol, aux
 MCShapes == AllSessionShapes
 MCScript == IF MCLong THEN <<"SetObj", "LoadRaw", "CopyTo">> ELSE <<"SetObj", "LoadRaw", "CopyTo">>
 MCProps == {"C06"}
